@@ -127,6 +127,30 @@ FlatStr(v) ==
        [] v.t = "arr" -> <<"[">> \o catIt(1) \o <<"]">>
        [] OTHER       -> <<OutcomeChar(v.o)>>
 
+(***************************************************************************)
+(* C19 at the level of the design: redaction is a fixed point.  Reclass    *)
+(* re-reads an output tree as an input: every placeholder becomes a literal *)
+(* of the class its text belongs to.  Idempotent: a second pass leaves     *)
+(* every leaf as it is (keeps it, or replaces it by the same placeholder). *)
+(***************************************************************************)
+ClassOfOutcome(o) ==
+  CASE o = "generic" -> "plain" [] o = "email" -> "email" [] o = "isodate" -> "date" [] o = "oid" -> "oid"
+    [] o = "b64" -> "b64" [] o = "hash" -> "plain" [] o = "ip" -> "ip" [] o = "plan" -> "plan"
+RECURSIVE Reclass(_)
+Reclass(v) ==
+  CASE v.t = "obj" -> Obj([i \in 1..Len(v.kv) |-> <<v.kv[i][1], Reclass(v.kv[i][2])>>])
+    [] v.t = "arr" -> Arr([i \in 1..Len(v.it) |-> Reclass(v.it[i])])
+    [] OTHER       -> IF v.o = "keep" THEN v
+                      ELSE IF v.t = "str" THEN [v EXCEPT !.cls = ClassOfOutcome(v.o), !.m = FALSE, !.o = "keep"]
+                      ELSE [v EXCEPT !.o = "keep"]
+Idempotent(c, line) ==
+  LET r1 == RedactMongoLog(c, line)
+      a  == FlatStr(r1)
+      b  == FlatStr(RedactMongoLog(c, Reclass(r1)))
+  IN Len(a) = Len(b) /\ \A i \in 1..Len(a) : b[i] = a[i] \/ b[i] = "k"
+\* for every flag set of the run without pseudonymisation (C19 excludes --redactNamespaces / --redactFieldNames)
+IdempotentAll(line) == \A n \in DOMAIN Cfgs : (~Cfgs[n].ns /\ ~Cfgs[n].eagerOn) => Idempotent(Cfgs[n], line)
+
 \* Cfgs (from VerifParams): function  name -> cfg record
 Predict(line) == [n \in DOMAIN Cfgs |-> FlatStr(RedactMongoLog(Cfgs[n], line))]
 
